@@ -44,7 +44,7 @@ fn spec(prop: &str) -> Option<Spec> {
             rule: "universes (1-2 programs, combinator depth <= 3, optional event->program link) x schedules (<= 30 shell actions: resolve, drop, late resolve, abort, start, no-op) on Core / legacy / bridge hosts; every call is judged by the trace invariants and by replaying its witness on the reference runtime; non-trivial = some call returned >= 2 effects, or an applied event started a follow-up program; distinct = distinct (host, universe)",
             nontrivial: |_, i| i.max_effects_in_call >= 2 || i.follow_ups > 0,
             quick: 3_000,
-            thorough: 60_000,
+            thorough: 30_000,
         },
         "C02" => Spec {
             prop: "C02",
@@ -53,7 +53,7 @@ fn spec(prop: &str) -> Option<Spec> {
             rule: "programs with several one-shot, notification and stream requests outstanding at once (equal operations included: requests are told apart only by their position in the program); schedules interleave resolutions, repeated resolutions of answered one-shots, resolutions of notifications and of ended streams; every resolution result (accepted / rejected) and the task that received each value are compared with the reference on the typed and on both serialized paths; non-trivial = >= 2 requests outstanding at once and >= 1 repeated or late resolution; distinct = distinct (host, universe)",
             nontrivial: |_, i| i.max_outstanding >= 2 && i.late_resolves >= 1,
             quick: 3_000,
-            thorough: 60_000,
+            thorough: 30_000,
         },
         "C03" => Spec {
             prop: "C03",
@@ -62,7 +62,7 @@ fn spec(prop: &str) -> Option<Spec> {
             rule: "programs whose tasks emit bursts of events between requests, events that start follow-up programs, every resolution order, on Core (command and legacy API) and through the bridge; update carries a re-entrancy flag and appends every event it applies to a log in the model; per call: the log read through view equals the events applied according to the reference, every applied event was the oldest pending one of its emitter, nothing emitted is left unapplied; non-trivial = some call applied >= 2 events, or an applied event started a follow-up program; distinct = distinct (host, universe)",
             nontrivial: |_, i| i.max_events_in_call >= 2 || i.follow_ups > 0,
             quick: 3_000,
-            thorough: 60_000,
+            thorough: 30_000,
         },
         "C13" => Spec {
             prop: "C13",
@@ -71,7 +71,7 @@ fn spec(prop: &str) -> Option<Spec> {
             rule: "long cyclic histories (up to 260 shell actions: programs started again and again, resolutions, drops, aborts, late resolutions) on direct / Core / legacy / bridge hosts; after every call: no finished task future is still held (drop counters on every task root future the generated program creates), the core's executor holds exactly as many tasks as there are unfinished commands returned by update, the bridge registry holds no entry for a request that can no longer be resolved (undecodable answers included); after dropping the host no task future exists; plus, on one thread, histories of up to 120 (thorough 600) timer cycles through both time APIs (fired / cleared and answered / cleared then fired / fired then cleared / handle dropped / cleared in the starting update), after each of which the executor must be empty and the legacy API's process-wide set of cleared ids as small as before; non-trivial = >= 100 actions in which the set of outstanding requests returned to empty >= 10 times; distinct = distinct (host, universe)",
             nontrivial: |_, i| i.actions >= 100 && i.returned_to_empty >= 10,
             quick: 600,
-            thorough: 12_000,
+            thorough: 8_000,
         },
         "C04" => Spec {
             prop: "C04",
@@ -83,7 +83,7 @@ fn spec(prop: &str) -> Option<Spec> {
                 u.programs.iter().any(|p| p.depth() >= 2) && ["then", "and", "all", "map_event", "map_effect"].iter().filter(|k| s.contains(*k)).count() >= 2 && (s.contains("chain") || s.contains("stream"))
             },
             quick: 6_000,
-            thorough: 80_000,
+            thorough: 40_000,
         },
         "C05" => Spec {
             prop: "C05",
@@ -92,7 +92,7 @@ fn spec(prop: &str) -> Option<Spec> {
             rule: "programs nested to depth <= 4 and then wrapped 1-6 more times (all([p]), done.then(p), p.then(done), p.and(done), map_event, map_effect, spawn-on-done), run on every host (direct inspection, manual stream polling by a harness executor that polls a command only after its waker was used, Core with the command API, Core with the legacy API, bincode bridge, JSON bridge) under every resolve / drop order; on each host every call is judged against the same reference semantics: the effects and events of the call, and in particular no task left runnable when the call returns (a wake-up lost between layers); a quarter of the cases use no reference at all: the universe (without cancellation and follow-up programs) runs in lock step on {direct, stream-polled, Core}, on {Core, bincode bridge, JSON bridge} and, if expressible, on {Core command API, Core legacy API}, and after every shell action the hosts must have returned the same effects (paths, kinds, map_effect marks), the same resolution result and applied the same events; non-trivial = total nesting depth >= 5 (>= 4 for lock-step cases) and a resolution or drop that happened while >= 2 requests were outstanding; distinct = distinct (host, universe, mode)",
             nontrivial: |u, i| u.programs.iter().any(|p| p.depth() >= 5) && i.max_outstanding >= 2,
             quick: 3_000,
-            thorough: 60_000,
+            thorough: 30_000,
         },
         "C06" => Spec {
             prop: "C06",
@@ -101,7 +101,7 @@ fn spec(prop: &str) -> Option<Spec> {
             rule: "programs with abortable commands, task aborts and exported join handles; schedules inject aborts and drops at generated points and keep resolving afterwards; non-trivial = a cancellation (abort or drop) happened while >= 1 other request was outstanding and a resolution followed; distinct = distinct (host, universe)",
             nontrivial: |_, i| (i.aborts + i.drops) >= 1 && i.max_outstanding >= 2,
             quick: 6_000,
-            thorough: 80_000,
+            thorough: 40_000,
         },
         "C07" => Spec {
             prop: "C07",
@@ -114,7 +114,7 @@ fn spec(prop: &str) -> Option<Spec> {
                 i.drops >= 1 && (s.contains("join") || s.contains("select") || s.contains("join_handle"))
             },
             quick: 12_000,
-            thorough: 80_000,
+            thorough: 40_000,
         },
         "C09" => Spec {
             prop: "C09",
@@ -123,7 +123,7 @@ fn spec(prop: &str) -> Option<Spec> {
             rule: "histories with many requests outstanding and out-of-order responses through the bincode and JSON bridges; decoded requests, ids and view compared with the reference; non-trivial = >= 3 requests outstanding at once, responses out of issue order; distinct = distinct (host, universe)",
             nontrivial: |_, i| i.max_outstanding >= 3 && i.out_of_order,
             quick: 3_000,
-            thorough: 60_000,
+            thorough: 30_000,
         },
         _ => return None,
     })
